@@ -10,14 +10,14 @@ import (
 
 // Env: evaluation environment of a contract expression.
 type Env struct {
-	vars map[string]Value
-	fr   *Frame   // frame of the function under verification (for source-level locals), may be nil
-	lc   *loopCtx // active loop (for $pos, $rangeindex)
-	old  *State   // state used for old(...)
-	spec bool     // evaluating a spec-file expression (no Go values)
-	defs map[string]Expr // contract-level definitions (macros)
-	pkg  string          // package of the contract (for package-level macros)
-	freshBase *Term // allocation counter at the start of the call whose contract is evaluated
+	vars      map[string]Value
+	fr        *Frame          // frame of the function under verification (for source-level locals), may be nil
+	lc        *loopCtx        // active loop (for $pos, $rangeindex)
+	old       *State          // state used for old(...)
+	spec      bool            // evaluating a spec-file expression (no Go values)
+	defs      map[string]Expr // contract-level definitions (macros)
+	pkg       string          // package of the contract (for package-level macros)
+	freshBase *Term           // allocation counter at the start of the call whose contract is evaluated
 }
 
 type vNil struct{}
@@ -648,8 +648,20 @@ func (ex *Exec) evalCall(st *State, c *ECall, env *Env, cl *Clause) Value {
 			return v
 		}
 		ex.evalFail(cl, "chanlast(): no channel receive on this path")
+	case "chancloses":
+		// number of channels closed so far on this path (ghost)
+		if _, unknown := st.ghost["$chanEventsUnknown"]; unknown {
+			ex.evalFail(cl, "chancloses(): a loop on this path sends on or closes a channel; the count is not known")
+		}
+		if g, ok := st.ghost["$closes"].(*Term); ok {
+			return g
+		}
+		return IntLit(0)
 	case "chansends":
 		// number of channel sends executed so far on this path (ghost)
+		if _, unknown := st.ghost["$chanEventsUnknown"]; unknown {
+			ex.evalFail(cl, "chansends(): a loop on this path sends on or closes a channel; the count is not known")
+		}
 		if g, ok := st.ghost["$sends"].(*VTuple); ok {
 			return IntLit(int64(len(g.Vals)))
 		}
